@@ -105,8 +105,10 @@ func runAllocConcurrent(c *Ctx, rounds int) {
 				}
 				if prev, dup := seen[idx]; dup {
 					bad++
-					c.vio("C04", "double-issue-concurrent", fmt.Sprintf("%s: goroutines %d and %d were both given block %d (%v) in the same round (%s)", p.desc, prev, g, idx, res[g].ip, map[bool]string{true: "all hinting that free block", false: "no hint"}[sameHint]),
-						map[string]interface{}{"pool": p.desc, "round": r, "goroutines": G, "same_hint": sameHint, "block": idx})
+					for _, prop := range []string{"C04", "C05"} { // two holders of one block: not disjoint (C04), and more allocations satisfied than there are blocks behind them (C05)
+						c.vio(prop, "double-issue-concurrent", fmt.Sprintf("%s: goroutines %d and %d were both given block %d (%v) in the same round (%s)", p.desc, prev, g, idx, res[g].ip, map[bool]string{true: "all hinting that free block", false: "no hint"}[sameHint]),
+							map[string]interface{}{"pool": p.desc, "round": r, "goroutines": G, "same_hint": sameHint, "block": idx})
+					}
 				}
 				seen[idx] = g
 			}
